@@ -15,8 +15,12 @@ REPO = os.environ.get('VERIF_REPO', '/repo')
 
 
 class LoopSpec:
-    def __init__(self, inv, variant=None):
-        self.inv, self.variant = inv, variant
+    """inv(s, it): the invariant.  lemmas(s, it): instances of trusted mathematical facts (finite-sum sign
+    lemmas ...) about the current state, ASSUMED at the loop head and again before the invariant is
+    re-established; they are listed in the trusted base."""
+
+    def __init__(self, inv, variant=None, lemmas=None):
+        self.inv, self.variant, self.lemmas = inv, variant, lemmas
 
 
 class Case:
@@ -28,7 +32,7 @@ class Contract:
     def __init__(self, file, qualname, cases=None, requires=None, ensures=None, modifies=(), pure=None,
                  make_ret=None, may_raise=None, must_raise=None, raise_allowed=None, loops=None, sites=None,
                  sites_strict=(), locals_=None, globals_=None, normalize=None, axioms=None, verify=True,
-                 min_obligations=1, sum_hook=None, note=''):
+                 min_obligations=1, sum_hook=None, note='', local_sorts=None, post_lemmas=None):
         self.file, self.qualname = file, qualname
         self.cases = cases or []
         self.requires, self.ensures, self.modifies = requires, ensures, tuple(modifies)
@@ -39,6 +43,8 @@ class Contract:
         self.locals_, self.globals_ = locals_ or {}, globals_ or {}
         self.normalize, self.axioms = normalize, axioms
         self.verify, self.min_obligations, self.sum_hook, self.note = verify, min_obligations, sum_hook, note
+        self.local_sorts = local_sorts or {}
+        self.post_lemmas = post_lemmas
 
 
 class Source:
@@ -84,6 +90,9 @@ class Registry:
         self.functions.add(c.qualname)
         return c
 
+    def classes(self):
+        return {q.split('.')[0] for q in self.contracts if '.' in q}
+
     def has(self, q):
         return q in self.contracts
 
@@ -108,7 +117,16 @@ class Unit:
         self.locals_ = contract.locals_
         self.globals_ = dict(contract.globals_)
         self.sum_hook = contract.sum_hook
+        self.local_sorts = getattr(contract, 'local_sorts', None) or {}
         self.name = '%s[%s]' % (contract.qualname, case.name)
+        self._loop_ord = {}
+        if self.node is not None:
+            loops = [x for x in ast.walk(self.node) if isinstance(x, (ast.For, ast.While))]
+            loops.sort(key=lambda x: (x.lineno, x.col_offset))
+            self._loop_ord = {id(x): k for k, x in enumerate(loops)}
+
+    def loop_ordinal(self, n):
+        return self._loop_ord[id(n)]
 
     def globals_env(self):
         return self.globals_
@@ -171,6 +189,9 @@ def run_path(unit, lib, prefix, skip):
             res.reached_post = True
             new = View(env, {'old': old, 'run': run, 'ghost': run.ghost})
             end_line = getattr(run, 'cur_line', unit.node.lineno)
+            if c.post_lemmas is not None:
+                for lm in c.post_lemmas(new):
+                    run.assume(lm)
             if outcome[0] == 'return':
                 if c.must_raise is not None:
                     run.oblige('post', 'raise-required', end_line, Not(c.must_raise(old)))
@@ -234,8 +255,32 @@ def explore(unit, lib, max_paths=400):
 def site_key(ob):
     """program point of an obligation, stable across the two modes (conjunct numbering is not: expanded
     quantifiers flatten into more conjuncts in finite mode)"""
-    base = ob.label.split('.')[0] if ob.label.startswith('post.') else ob.label
+    base = ob.label
+    if ob.kind in ('post', 'loop-init', 'loop-preserve', 'pre') and '.' in base and base.rsplit('.', 1)[1].isdigit():
+        base = base.rsplit('.', 1)[0]
     return (ob.kind, base, ob.lineno)
+
+
+def check_split(ob, timeout_ms):
+    """an obligation whose goal is a conjunction, decided conjunct by conjunct (smaller, stabler queries).
+    Returns ('unsat', ...) only if every conjunct is discharged; otherwise the first open conjunct's result."""
+    parts = flatten_and(ob.goal)
+    if len(parts) <= 1:
+        return None
+    total = 0.0
+    worst = None
+    for k, g in enumerate(parts):
+        sub = Obligation(ob.kind, ob.label, ob.lineno, ob.pc, g)
+        r, dt, model, reason, sol = check_one(sub, timeout_ms)
+        total += dt
+        if r != 'unsat':
+            if r == 'sat':
+                return r, total, model, 'conjunct %d: %s' % (k, str(g)[:200]), sol
+            if worst is None:
+                worst = (r, model, 'conjunct %d %s: %s' % (k, reason, str(g)[:200]), sol)
+    if worst is None:
+        return 'unsat', total, None, 'split into %d conjuncts' % len(parts), None
+    return worst[0], total, worst[1], worst[2], worst[3]
 
 
 def check_one(ob, timeout_ms):
@@ -290,7 +335,9 @@ def verify_unit(contract_qual, case_name, registry_factory, tier='quick', proof_
         if unit.node is None:
             raise Unbindable('function %s not found in %s' % (contract_qual, c.file))
         lib = Lib()
+        tt = time.time()
         obls, npaths, reached, entry_pc, finals = explore(unit, lib)
+        out['t_explore_proof'] = round(time.time() - tt, 2)
         out['paths'] = npaths
         open_labels = {}
         results = []
@@ -300,6 +347,11 @@ def verify_unit(contract_qual, case_name, registry_factory, tier='quick', proof_
             # first pass: short budget (baseline VCs take milliseconds); what stays open goes to the
             # finite-scope refutation first and only then gets the long proof budget
             r, dt, model, reason, sol = check_one(ob, fast_ms)
+            if r == 'unknown':
+                sp = check_split(ob, fast_ms)
+                if sp is not None:
+                    r, dt2, model, reason, _ = sp
+                    dt += dt2
             rec = dict(id=ob.id, ordinal=ob.ordinal, kind=ob.kind, label=ob.label, lineno=ob.lineno,
                        result=r, seconds=round(dt, 4), backend='z3-%s (python API, proof mode)' % z3.get_version_string(),
                        status='discharged' if r == 'unsat' else 'open', reason=reason, model=None, goal=str(ob.goal)[:400])
@@ -317,6 +369,7 @@ def verify_unit(contract_qual, case_name, registry_factory, tier='quick', proof_
                 open_labels.setdefault(site_key(ob), []).append(rec)
                 open_obs.append((ob, rec))
             results.append(rec)
+        out['t_discharge'] = round(time.time() - tt - out['t_explore_proof'], 2)
         if len(obls) < c.min_obligations:
             out['status'] = 'undecided'
             out['error'] = 'only %d obligations generated, contract declares at least %d' % (len(obls), c.min_obligations)
@@ -327,7 +380,9 @@ def verify_unit(contract_qual, case_name, registry_factory, tier='quick', proof_
             cf = regf.get(contract_qual)
             casef = [x for x in cf.cases if x.name == case_name][0]
             unitf = Unit(cf, casef, regf)
+            tt2 = time.time()
             oblsf, npf, reachedf, entry_pcf, finalsf = explore(unitf, Lib())
+            out['t_explore_finite'] = round(time.time() - tt2, 2)
             sol = z3.Solver()
             sol.set('timeout', finite_timeout_ms)
             for f in entry_pcf or []:
@@ -363,27 +418,22 @@ def verify_unit(contract_qual, case_name, registry_factory, tier='quick', proof_
                                     rec['finite_lineno'] = obf.lineno
                                     rec['seconds'] = round(rec['seconds'] + dt, 4)
         # second chance with the long budget for what is neither discharged nor refuted
-        if open_obs:
-            so.set_mode(False)
-            reg2 = registry_factory()
-            c2 = reg2.get(contract_qual)
-            unit2 = Unit(c2, [x for x in c2.cases if x.name == case_name][0], reg2)
-            obls2, _, _, _, _ = explore(unit2, Lib())
-            byid = {(o.id, o.ordinal): o for o in obls2}
-            for ob, rec in open_obs:
-                if rec['status'] != 'open':
-                    continue
-                ob2 = byid.get((ob.id, ob.ordinal))
-                if ob2 is None:
-                    continue
-                r, dt, model, reason, _ = check_one(ob2, proof_timeout_ms)
-                rec['seconds'] = round(rec['seconds'] + dt, 4)
-                rec['result'], rec['reason'] = r, reason
-                if r == 'unsat':
-                    rec['status'] = 'discharged'
-                elif r == 'sat':
-                    rec['status'] = 'refuted'
-                    rec['model'] = model_to_dict(model)
+        for ob, rec in open_obs:
+            if rec['status'] != 'open':
+                continue
+            r, dt, model, reason, _ = check_one(ob, proof_timeout_ms)
+            if r == 'unknown':
+                sp = check_split(ob, proof_timeout_ms)
+                if sp is not None:
+                    r, dt2, model, reason, _ = sp
+                    dt += dt2
+            rec['seconds'] = round(rec['seconds'] + dt, 4)
+            rec['result'], rec['reason'] = r, reason
+            if r == 'unsat':
+                rec['status'] = 'discharged'
+            elif r == 'sat':
+                rec['status'] = 'refuted'
+                rec['model'] = model_to_dict(model)
         for rec in results:
             if rec['status'] == 'open':
                 rec['status'] = 'undecided'
